@@ -846,7 +846,8 @@ def prims_var(
     # Adjust var according to correction value
     if correction != 0:
         inp_shape = op.Shape(inp)
-        dim_size = op.Gather(inp_shape, dims, axis=0)
+        # without dims every dimension is reduced
+        dim_size = inp_shape if dims is None else op.Gather(inp_shape, dims, axis=0)
         numel_float = op.CastLike(op.ReduceProd(dim_size, keepdims=False), inp)
         mul = op.Mul(var, numel_float)
         # Subtract the correction value
